@@ -12,870 +12,1071 @@ Definition show_fres (r : fres) : string :=
   end.
 Definition check (rs : list rune) : string := digest (show_fres (format_res rs)).
 Definition full (rs : list rune) : string := show_fres (format_res rs).
-Eval vm_compute in ("<<<M1342>>>" ++ check (runes_of_ascii "// top
-options
-    // c0
-{ StringPrefixLenType
-    // c2
-= u64 ; ArrayPrefixLenType // c6
-= u32
-    // c8
-; // c9a
-  // c9b
-FixedStringPadFromLeft
-    // c10
-=
-    // c11
-false // c12
-; } // c14
-packet // c15
-Party // c16
-{ zchar[ // c18
-7 // c19
-] // c20
-OrderId // c21a
-  // c21b
-, // c22
-InTail6 { // c24
-repeat // c25a
-  // c25b
-char[ // c26
-1 ] // c28
-msgKind , // c30
-char[
-    // c31
-3 // c32a
-  // c32b
-] Tail , char[
-    // c36
-3 // c37a
-  // c37b
-]
-    // c38
-Flags // c39
-, // c40a
-  // c40b
-i16 tag7
-    // c42
-, // c43a
-  // c43b
-} ,
-    // c45
-@rightPad
-    // c46
-(
-    // c47
-'0' // c48
-) char[ // c50
-12 // c51a
-  // c51b
-]
-    // c52
-clOrdID
-    // c53
-, // c54
-} packet // c56a
-  // c56b
-Quote // c57a
-  // c57b
-{ @leftPad // c59
-( // c60
-'0' // c61a
-  // c61b
-)
-    // c62
-char[ // c63a
-  // c63b
-11
-    // c64
-]
-    // c65
-price // c66a
-  // c66b
-, // c67
-repeat InCount7 // c69
-{ // c70
-i32 // c71
-x // c72
-, // c73a
-  // c73b
-Party , // c75a
-  // c75b
-u8 // c76a
-  // c76b
-Ref // c77a
-  // c77b
-, u8 // c79
-tag7 // c80
-, // c81
-} ,
-    // c83
-char[] // c84
-seqNo // c85
-,
-    // c86
-Party
-    // c87
-, // c88
-} // c89
-packet // c90
-Logon // c91a
-  // c91b
-{ @rightPad // c93a
-  // c93b
-(
-    // c94
-'\x00'
-    // c95
-) // c96a
-  // c96b
-char[ // c97
-5 ] // c99
-Note
-    // c100
-, i16 sym // c103
-, // c104a
-  // c104b
-InPrice72 // c105
-{ // c106
-char[ 9 // c108
-]
-    // c109
-Ref // c110
-,
-    // c111
-zchar[
-    // c112
-1 ] venue // c115
-, // c116a
-  // c116b
-} // c117a
-  // c117b
-, // c118a
-  // c118b
-char[]
-    // c119
-clOrdID
-    // c120
-, // c121a
-  // c121b
-} // c122
-root
-    // c123
-packet // c124
-Reject { // c126
-repeat // c127a
-  // c127b
-Logon // c128
-, // c129a
-  // c129b
-@leftPad ( // c131
-' ' // c132
-) // c133a
-  // c133b
-char[
-    // c134
-4 // c135a
-  // c135b
-] // c136a
-  // c136b
-seqNo
-    // c137
-,
-    // c138
-zchar[ // c139a
-  // c139b
-5
-    // c140
-] // c141
-Acct // c142
-, // c143
-u32
-    // c144
-x
-    // c145
-, // c146
-u16
-    // c147
-f1
-    // c148
-@lengthOf( // c149a
-  // c149b
-Body // c150a
-  // c150b
-)
-    // c151
-, match x // c154a
-  // c154b
-as
-    // c155
-Body // c156a
-  // c156b
-{ // c157a
-  // c157b
-[
-    // c158
-169
-    // c159
-, 74 ]
-    // c162
-:
-    // c163
-Quote
-    // c164
-, // c165
-45 // c166a
-  // c166b
-: Party // c168a
-  // c168b
-, // c169
-7 // c170
-:
-    // c171
-Logon , // c173
-} // c174
-,
-    // c175
-} // c176a
-  // c176b
-")).
-Eval vm_compute in ("<<<M279>>>" ++ check (runes_of_ascii "  root packet
-    crc {	uint32
-repeatCount //
-@lengthOf( // a // b
-MetaDataX	) `say ""hi""` ,
-    @tag( 65535 ) A {
-    u128 , u8x	{ repeatCount  @lengthOf( As )// c
-,// packet A { u8 x, }
-i32	_x@calculatedFrom(//	t
-""" ++ [128512]%N ++ runes_of_ascii """	), } , } // c
-,
-@lengthOf(As ) @tag(  0 ) @tag(4294967296 ) string metadata ,
-string lengthOf // `tick` ""quote"" 'q'
-@lengthOf(f32a) , @tag( 3 )string packetx,	@lengthOf( Pad) @lengthOf( packetx ) BodyLength @calculatedFrom( ""a	b"" )
-, repeat u8x
-{ zchar[ 3 ]
-    tag `doc` , match As as leftPad
-    { [
-    10 ,
-3 , 7 ,
-""abc"" , 42 // @lengthOf(
-]
-:
-A
-, } , match Header as falsey { 42
-// `tick` ""quote"" 'q'
-// trailing space 
-:
-    msg_type
-    , 00
-: A
-1 :
-charz ,""// no comment"" : int // @lengthOf(
-,	0123456789 :chars , 4294967296
-: x } ,
-}
+Eval vm_compute in ("<<<M320>>>" ++ check (runes_of_ascii "packet
     /// triple
-    , @tag(
-10 ) @tag(//x
-007 )
-@calculatedFrom( ""`tick`""
-    )i8i8 @lengthOf(
-    //
-    charz ),
-    char[ 7] Header
-, } packet
-lengthOf // @lengthOf(
-{match metadata
-    // " ++ [128512]%N ++ runes_of_ascii " emoji
-    as asx{ 7 // packet A { u8 x, }
-: //
-float  ,
-    // " ++ [128512]%N ++ runes_of_ascii " emoji
-    """ ++ [233]%N ++ runes_of_ascii "t" ++ [233]%N ++ runes_of_ascii """:
-stringy
-, """ ++ [28040; 24687]%N ++ runes_of_ascii """ :
-BodyLength , 7 : leftPad , } , @lengthOf(MetaDataX
-)repeat zchar[ 7 ]float , @tag( 0
-    )matchKey @calculatedFrom(""packet""
-    ) // packet A { u8 x, }
-, }packet Pad{ options1 @lengthOf(rootA ),} root // c
-packet BodyLength{
-string uint8x
-//
-// " ++ [27880; 37322]%N ++ runes_of_ascii "
-@lengthOf( Z9_) , } // c")).
-Eval vm_compute in ("<<<M134>>>" ++ check (runes_of_ascii "packet // " ++ [128512]%N ++ runes_of_ascii " emoji
-x{
-    //x
-    lengthOf @calculatedFrom(""abc"")
-`u8 x,`
-    ,
-@rightPad( )
-//x
+    a1 { @rightPad ( ' ' ) @tag( 255
+)
+@lengthOf( zchar ) string MetaDataX	@calculatedFrom( ""CRC32"" ) // a // b
+`crlf
+line` ,u8 A @lengthOf( charz
+    ) ,
+    body ,@rightPad
+    ( '0'	)@lengthOf( charz ) match repeatCount as
+    Z9_ { 0123456789 : metadata // @lengthOf(
+,""" ++ [233]%N ++ runes_of_ascii "t" ++ [233]%N ++ runes_of_ascii """ : float  ,// packet A { u8 x, }
+""1"": Logon ,// " ++ [27880; 37322]%N ++ runes_of_ascii "
+},
+x_y_z`" ++ [233]%N ++ runes_of_ascii "`//x
+, @calculatedFrom(	""1"")match Header  as body
+    { 4294967296
 // @lengthOf(
-float32 Packet @lengthOf( falsey ) ,	char[ 10] falsey , @tag( 3  ) repeat zchar[
-    4294967296 ] repeatCount ,repeatCount`say ""hi""` , int16 u128 // `tick` ""quote"" 'q'
+// @lengthOf(
+: MetaDataX
 ,
-char[ 3
-] crc
-@calculatedFrom( ""x y"" )
-, // trailing space 
-@leftPad
-    (
-    // " ++ [27880; 37322]%N ++ runes_of_ascii "
-    '\x00' )	match chars as i8i8 {
-    42 : charz// trailing space 
-,}
-, }  options {	} MetaData metadata { char[ 4294967296 ] i8i8	,
-    float
-    rootA , i64
-    packetx // " ++ [27880; 37322]%N ++ runes_of_ascii "
-, i8 // " ++ [27880; 37322]%N ++ runes_of_ascii "
-roots `crlf
-line`
-    ,
-    tag i64_  , uint8 Pad `" ++ [233]%N ++ runes_of_ascii "`
-, }root packet Header{
-u64 options1  `two words`
-    , @calculatedFrom(""a\\"" // trailing space 
-) // " ++ [128512]%N ++ runes_of_ascii " emoji
-i32 //	t
-x_y_z	@calculatedFrom( ""a\""b"")`tab	here` , match
-A as len { [ ""CRC32"" // " ++ [128512]%N ++ runes_of_ascii " emoji
-,""it's""  ] //	t
-: Z9_ ""a	b"" :
-    o ,
-} , match asx
-as pack {0 :	x_y_z , }
-    , char[] i64_ `{ , }`
-,
+""abc"" //x
+: packetx
     }
-MetaData stringy
-{ // trailing space 
-lengthOf
-// `tick` ""quote"" 'q'
-//	t
-o, string//
-u8x , f32 string_ `doc` ,}
-")).
-Eval vm_compute in ("<<<M1737>>>" ++ check (runes_of_ascii "options
-
-{
-
-StringPrefixLenType
-
-=	u64  ;
-ArrayPrefixLenType
-	= 
-u32 
-; FixedStringPadFromLeft= 
-false;
+, x_y_z @calculatedFrom( ""\" ++ [233]%N ++ runes_of_ascii """ ),i64_  @calculatedFrom(""abc"")`
+`,
+@rightPad //	t
+(
+)
+    //	t
+    char
+    float
+@lengthOf(	trueish )
+, @tag(42 ) @leftPad ( '\x00' ) @calculatedFrom(	""\n"") repeat string
+tag, //x
+} packet
+tag { repeat T u `
+` , string u128 @calculatedFrom( // `tick` ""quote"" 'q'
+""packet"" )`u8 x,` ,
+// trailing space 
+//x
+repeat
+    f64
+stringy `" ++ [233]%N ++ runes_of_ascii "` , u32 leftPad  @lengthOf(float ) , uint32	i8i8
+@lengthOf( f32a
+) , int@calculatedFrom( """ ++ [233]%N ++ runes_of_ascii "t" ++ [233]%N ++ runes_of_ascii """ )
+    ,
+    // c
+    @calculatedFrom( ""\n""
+) @leftPad
+    ( '\x00') @rightPad
+    ()
+    repeat
+pack  `// not a comment` , @calculatedFrom( ""1""	)
+    char[]  string_
+,f64 calculatedFrom
+    @lengthOf(	pack)  `tab	here`,@tag(00 ) int8 tag
+    ,
+} options { f32a
+= ""a	b"" _x = false ; _x = '0' o= false /// triple
+} packet falsey
+    /// triple
+    { @tag(
+    // trailing space 
+    007 ) string falsey,
+i64_
+@lengthOf(crc),repeat // c
+u128 body// packet A { u8 x, }
+, char[ 00]roots,/// triple
+metadata @lengthOf(packetx // `tick` ""quote"" 'q'
+)
+    `
+`	,// trailing space 
+string_
+BodyLength, @calculatedFrom(
+""it's"" ) repeat matchKey ,
+metadata
+    @calculatedFrom( ""abc""
+)// @lengthOf(
+,
+@tag( 255 )repeat
+Pad
+    {
+char[] packetx ,repeat o { int16 charz
+    // packet A { u8 x, }
+    ,packetx {
+i8
+//
+// packet A { u8 x, }
+zchar ,} ,char[10 //x
+]x
+, repeat zchar[ 0123456789 ]
+pack , // c
+} ,	int ,
+i8 asx ,
 }
-	packet	Party
+,}
+packet leftPad
+    { @tag(255
+    /// triple
+    )repeat uint16 msg_type  ,
+    // c
+    f32  trueish @calculatedFrom("""" )	`two words` // `tick` ""quote"" 'q'
+, @leftPad( '\x00' ) @lengthOf( leftPad
+) // a // b
+@lengthOf( asx // a // b
+)
+    //	t
+    zchar[ 1] roots @calculatedFrom(
+""abc""
+) ,pack @lengthOf(
+Z9_ ), @tag(
+65535) @lengthOf(Header
+    ) // c
+f64 tag , @tag( 1
+)repeat
+    u8x, match stringy// c
+as x { ""it's"" // " ++ [27880; 37322]%N ++ runes_of_ascii "
+: Z9_ ,7 : u128 ,
+""// no comment"" :trueish, 00
+:
+    //	t
+    f32a ,
+    [3,  1, 00]:	pack,""" ++ [28040; 24687]%N ++ runes_of_ascii """
+    // trailing space 
+    : options1	,
+// `tick` ""quote"" 'q'
+//x
+} ,
+repeat // `tick` ""quote"" 'q'
+u128 { repeat
+crc
+{ int16	int ,  }
+// c
+// @lengthOf(
+, }
+    // @lengthOf(
+    , @leftPad ( ' '  ) // trailing space 
+repeat
+zchar[ 255 ]
+// " ++ [128512]%N ++ runes_of_ascii " emoji
+// `tick` ""quote"" 'q'
+int `crlf
+line` ,@tag( 1 ) Logon roots
+    `// not a comment` , }
+")).
+Eval vm_compute in ("<<<M1840>>>" ++ check (runes_of_ascii "options {StringPrefixLenType
+	= u16
+    ; ArrayPrefixLenType=
+u16 ;} packet SampleBinary{ 
+uint16 
+MsgType
+    `" ++ [28040; 24687; 31867; 22411]%N ++ runes_of_ascii "`	, 
+u16 BodyLenght @lengthOf( Body
+    ) 
+`" ++ [28040; 24687; 20307; 38271; 24230]%N ++ runes_of_ascii "` 
+,
+	match MsgType
+
+as Body 
 { 
-zchar[	7
+1:
+Logon  , 
+2 : 
+Logout,
 
-]
-	OrderId,
+3 : Heartbeat
+    ,4
+:
+    RiskControlRequest  ,
+5
 
-    InTail6
+    : RiskControlResponse
 
-{
-repeat	char[	1	]
+    ,
+}  ,
+	@calculatedFrom( ""CRC32"" )u32
+Ckecksum`" ++ [26657; 39564; 21644]%N ++ runes_of_ascii "` ,}packet
 
-msgKind  , char[	3
-]
-Tail
-,  char[
+Logon
 
-3 ]Flags
-	, i16
+{ @leftPad 
+('0' )
 
-tag7
+    char[
+    10
 
-    , } 
-, @rightPad (	'0'	)	char[
-12
-	]  clOrdID ,
-	}
-packet
-Quote{
-@leftPad 
-( 
-'0'
-	) char[
-	11
-    ] price,repeat
-    InCount7  {i32 
-x ,Party,	u8
-    Ref ,u8
-    tag7
+    ]
+    UserName
+
+    `" ++ [29992; 25143; 21517]%N ++ runes_of_ascii "` ,
+
+    string	Password
+
+    `" ++ [23494; 30721]%N ++ runes_of_ascii "`
 
 ,
-    }  ,char[]
+	uint64
+    ClientId
 
-    seqNo
-    ,  Party ,  } packet Logon	{ @rightPad
-    ( 
-'\x00'
+`" ++ [23458; 25143; 31471]%N ++ runes_of_ascii "ID`,  u16
+    HeartbeatInterval
+	`" ++ [24515; 36339; 38388; 38548]%N ++ runes_of_ascii "` ,}	packet Logout  { @rightPad
+    (
+    '0'
 
     )
 
-    char[ 
-5 
-]Note ,
-
-    i16 sym
-,	InPrice72
-{  char[
-9]
-Ref ,zchar[1
-
-]  venue
-
-    , 
-}
-
-    , char[]
-
-    clOrdID  ,
-	}
-root
-packet Reject { repeat Logon ,@leftPad
-
-(
-' ' ) char[ 
-4
-
-]seqNo
-,
-zchar[
-
-    5 ]
-
-Acct
-	,
-u32
-	x 
-,u16
-f1
-
-@lengthOf( 
-Body ) 
-,match
-	x  as
-	Body
-
-    {
-    [ 
-169 
-,
-    74 
-]  :Quote 
-,
-45
-
-: Party  ,
-    7 
-:
-Logon ,
-
-}
-    ,
-    }
-")).
-Eval vm_compute in ("<<<M104>>>" ++ check (runes_of_ascii "options{  matchKey = ""x y""
-    ;	MetaDataX
-= '0'
-;
-} packet // c
-msg_type { @rightPad ( ' '  )repeat u128 body	, match body	as /// triple
-pack{ [ ""\" ++ [233]%N ++ runes_of_ascii """ , ""1"" ]: BodyLength
-, [ 255
-, ""a	b"" , ""a\\"" , ""{,}""
-,  007 , 007 ,
-    0123456789
-] : options1	,	} ,@leftPad
-()@lengthOf(charz	)
-@tag(	42
-) o{	i32 msg_type @lengthOf( A )// " ++ [27880; 37322]%N ++ runes_of_ascii "
-`doc` ,zchar[ 1] charz  , // c
-i8 packetx`{ , }`,
-msg_type `crlf
-line`
-    , }	,
-@calculatedFrom( ""\" ++ [233]%N ++ runes_of_ascii """ ) Z9_ @calculatedFrom(
-""" ++ [128512]%N ++ runes_of_ascii """ )`tab	here` ,
-repeat char[] Foo ,
-repeat zchar[ 0123456789]	u128
-, }	packet f32a{
-    f32a @lengthOf( matchKey )//x
-, @rightPad (
-    ' ' // " ++ [27880; 37322]%N ++ runes_of_ascii "
-)@lengthOf( chars ) _x Foo  `` ,  match
-    body // c
-as
-    body
-    {	[4294967296
-    , ""packet"", 3 , """ ++ [128512]%N ++ runes_of_ascii """
-,
-0123456789  ]
-: T [ ""a\\"" ]// `tick` ""quote"" 'q'
-: T
-, ""\n""
-:
-u8x , }
-//	t
-//x
-,} //x
-root packet lengthOf
-{ }
-")).
-Eval vm_compute in ("<<<M1344>>>" ++ check (runes_of_ascii "options {
-    StringPrefixLenType = u16;
-    ArrayPrefixLenType = u32;
-    FixedStringPadFromLeft = true;
-    FixedStringPadChar = '0';
-}
-packet Cancel {
-}
-packet Party {
-}
-packet Logon {
-}
-packet Ack {
-}
-packet Logout {
-    repeat InSym87 {
-        InClordid94 {
-            string clOrdID,
-        },
-        string Px,
-        i16 Qty,
-        repeat InCount71 {
-            repeat Cancel,
-            uint16 Tail,
-            char[2] x,
-            repeat string Ref,
-        },
-        Cancel,
-    },
-}
-root packet Order {
-    repeat string tag7,
-    @leftPad(' ') char[3] Px,
-    u8 Qty,
-    match Qty as Body {
-        [28, 62] : Logon,
-        148 : Ack,
-        88 : Party,
-        184 : Cancel,
-    },
-    u16 Note @calculatedFrom(""CRC32""),
-}
-")).
-Eval vm_compute in ("<<<M1644>>>" ++ check (runes_of_ascii "packet charz {
-    //	t
-    repeat i64_,
-    trueish {
-        repeat _x,
-        repeatCount,
-        repeat u16 matchKey `
-                `,
-        // " ++ [128512]%N ++ runes_of_ascii " emoji
-        // a // b
-        matchKey @calculatedFrom(""a\""b"") `it's`,
-    },
-    @tag(007)
-    @calculatedFrom(""a\\"")
-    @tag(3)
-    f32 f32a @lengthOf(asx) `crlf
-        line`,
-    repeat i8 string_,
-    @lengthOf(Logon)
-    @lengthOf(x_y_z)
-    @lengthOf(zchar)
-    repeat char[65535] Foo `" ++ [233]%N ++ runes_of_ascii "`,
-    @calculatedFrom(""abc"")
-    trueish @lengthOf(A),
-    char[0] float,
-    Packet @calculatedFrom(""a	b""),
-}
-
-MetaData Pad {
-    char[00] leftPad,
-    u8 rootA `
-        `,
-    int32 a1 `say ""hi""`,
-    Z9_ float,
-    i32 Pad,
-}")).
-Eval vm_compute in ("<<<M1446>>>" ++ check (runes_of_ascii "// top
-    root	// c0
-		packet // c1
-  	_x	// c2
-  { 	 // c3
-  match  // c4
-    Foo 	 // c5
-	as// c6
-    Z9_ // c7
-{// c8
-""a	b""	// c9
-: 	 // c10
-      Pad// c11
-	,// c12
-		}// c13
-    	,// c14
-repeat // c15
-  x// c16
-		`line1
-line2` // c17
-,  // c18
-	@rightPad // c19
-  ( 	 // c20
-	' '// c21
-  )// c22
-    @calculatedFrom(// c23
-    ""a\\"" 	 // c24
-	)	// c25
-    metadata	// c26
-  	MetaDataX	// c27
-      ,  // c28
-  @tag(// c29
-		0  // c30
-
-  ) 	 // c31
-
-Logon // c32
-	  int  // c33
-    `` // c34
-  ,// c35
-    }  // c36
-
-  options 	 // c37
-    {  // c38
-T	// c39
-  =	// c40
-    '\x00'  // c41
-	}	// c42")).
-Eval vm_compute in ("<<<M1670>>>" ++ check (runes_of_ascii "MetaData packetx {
-    zchar[7] leftPad `// not a comment`,
-}
-
-packet i64_ {
-    @calculatedFrom("""")
-    @lengthOf(x_y_z)
-    @tag(00)
-    repeatCount @calculatedFrom(""1""),
-}
-
-packet falsey {
-    int16 _x @calculatedFrom(""it's""),
-}// @lengthOf(
-
-root packet matchKey {
-    repeat u32 Pad `" ++ [233]%N ++ runes_of_ascii "`,
-    zchar[7] leftPad,
-    match chars as lengthOf {
-        1 : o,
-        42 : chars,
-    },
-    repeat zchar[255] a1,
-    matchKey Packet,
-    f32 tag,
-    @calculatedFrom(""a\""b"")
-    @leftPad(' ')
-    @lengthOf(T)
-    stringy @lengthOf(o),
-    packetx i64_,
-}")).
-Eval vm_compute in ("<<<M1927>>>" ++ check (runes_of_ascii "options
-
-// @lengthOf(
-  {
-	}	packet charz{
-@rightPad(  ' ' ) 
-@calculatedFrom(""a\\"" )	repeat int crc
-
-    `two words` 
-,
-string stringy
-	@calculatedFrom(	""a	b"" 
-  // " ++ [128512]%N ++ runes_of_ascii " emoji
-) `// not a comment`
-
-, 	 //
-  char 
-i8i8 , } MetaData
-    crc	{ 	 // `tick` ""quote"" 'q'
-    crc
-    i64_  `{ , }`
-	,
-    // `tick` ""quote"" 'q'
-
-  i32 // c
-    u128
-,	// packet A { u8 x, }
-    BodyLength	Header
-,
-char[	0123456789
-    ]
-	    /// triple
-	//
-	Packet
-`u8 x,`
-,
-uint8 repeatCount
-
-, //	t
-  }
-")).
-Eval vm_compute in ("<<<M1499>>>" ++ check (runes_of_ascii "options {
-    LittleEndian = true;
-    StringPrefixLenType = u64;
-    ArrayPrefixLenType = u16;
-    FixedStringPadFromLeft = false;
-    FixedStringPadChar = ' ';
-}
-
-packet Logon {
-    zchar[5] Side2,
-}
-
-root packet Logout {
-    repeat i64 Tail,
-    Logon,
-    repeat i16 OrderId,
-    char[] venue,
-    uint64 x,
-    repeat i16 count,
-    u8 Flags,
-    match Flags as Body {
-        25 : Logon,
-    },
-    u16 Qty @calculatedFrom(""CR\
-    C32""),
-}")).
-Eval vm_compute in ("<<<M1323>>>" ++ check (runes_of_ascii "options {
-    LittleEndian = false;
-    StringPrefixLenType = u8;
-    ArrayPrefixLenType = u64;
-    FixedStringPadFromLeft = false;
-    FixedStringPadChar = ' ';
-}
-packet Reject {
-    repeat char[4] seqNo,
-    string Px,
-}
-root packet Trade {
-    @rightPad('0') char[2] msgKind,
-    repeat f64 price,
-    InAcct79 {
-        repeat Reject,
-        zchar[7] OrderId,
-    },
-    Reject,
-}
-")).
-Eval vm_compute in ("<<<M299>>>" ++ check (runes_of_ascii "// packet A { u8 x, }
-MetaData roots{ char[ 00]lengthOf
-``  , As stringy, x	calculatedFrom ,} packet i8i8	{
-crc `crlf
-line` , @rightPad// a // b
-( )zchar[ 42] falsey // trailing space 
-,
-    /// triple
-    @tag( 42 ) u32	leftPad  , @tag( 42 ) a1@lengthOf( Z9_ ) , match leftPad as crc{ [""a\""b"" , 1
-, 255
-]:	trueish ,3
-: float ,
-0 :lengthOf
-    ,
-} ,}")).
-Eval vm_compute in ("<<<M1191>>>" ++ check (runes_of_ascii "// top
-MetaData // c0
-uint8x // c1
-{ // c2
-char[] // c3
-f32a // c4
-`// not a comment` // c5
-, // c6
-float32 // c7
-roots // c8
-, // c9
-char[ // c10
-7 // c11
-] // c12
-u8x // c13
-, // c14
-zchar[ // c15
-10 // c16
-] // c17
-f32a // c18
-, // c19
-u64 // c20
-pack // c21
-, // c22
-u16 // c23
-pack // c24
-, // c25
-} // c26
-")).
-Eval vm_compute in ("<<<M1501>>>" ++ check (runes_of_ascii "packet len {
-    // trailing space 
-    repeat zchar f32a `// not a comment`,
-    @tag(255)
-    repeat Pad {
-        x T,
-    },
-    @calculatedFrom(""{,}"")
-    repeat leftPad {
-        u64 u8x `tab	here`,
-        o Packet,
-        char[] chars,
-    },
-    @tag(3)
-    float64 i8i8,
-}")).
-Eval vm_compute in ("<<<M202>>>" ++ check (runes_of_ascii "packet Z9_
-    { @calculatedFrom( ""packet"") char //
-BodyLength , match chars as falsey {[65535,
-    // c
-    """ ++ [128512]%N ++ runes_of_ascii """ ,""" ++ [28040; 24687]%N ++ runes_of_ascii """ , ""`tick`""  , 10,
-    ""a\\"" ,""a\""b"" // @lengthOf(
-]: repeatCount , ""x y"" :chars , // " ++ [128512]%N ++ runes_of_ascii " emoji
-65535
-://x
-calculatedFrom , } , }
-")).
-Eval vm_compute in ("<<<M1854>>>" ++ check (runes_of_ascii "
+    char[ 10 ]
+	UserName
+    `" ++ [29992; 25143; 21517]%N ++ runes_of_ascii "`  ,
+	uint64
+    ClientId
+`" ++ [23458; 25143; 31471]%N ++ runes_of_ascii "ID`  , } 
 packet
-    crc
 
-    {  @leftPad 	 //	t
-	(
-	)
+    Heartbeat
+{ }
+	packet RiskControlRequest
+
+    {string UniqueOrderId
+	`" ++ [21807; 19968; 35746; 21333; 21495]%N ++ runes_of_ascii "`
+	, 
+char[
+
+16
+]
+ClOrdID
+`" ++ [23458; 25143; 35746; 21333; 21495]%N ++ runes_of_ascii "`,char[
+
+3
+
+]
+	MarketID`" ++ [24066; 22330]%N ++ runes_of_ascii "id` ,
+
+char[
+	12
+
+    ]  SecurityID
+	`" ++ [35777; 21048; 20195; 30721]%N ++ runes_of_ascii "` 
+,
+
+char Side
+
+`" ++ [20080; 21334; 26041; 21521]%N ++ runes_of_ascii "`
+    ,
+    char
+    OrderType
+
+    `" ++ [35746; 21333; 31867; 22411]%N ++ runes_of_ascii "`  ,	u64 Price
+
+    `" ++ [20215; 26684]%N ++ runes_of_ascii "`  , 
+u32
+
+Qty  `" ++ [25968; 37327]%N ++ runes_of_ascii "`  , 
+repeat string
+    ExtraInfo
+	`" ++ [38468; 21152; 20449; 24687]%N ++ runes_of_ascii "` ,
 repeat
 
-charz float
+    SubOrder
+{ char[
+16 ]
+
+ClOrdID`" ++ [23376; 35746; 21333; 21495]%N ++ runes_of_ascii "`
+
+    ,
+u64
+Price  `" ++ [23376; 35746; 21333; 20215; 26684]%N ++ runes_of_ascii "`
+, u32	Qty
+`" ++ [23376; 35746; 21333; 25968; 37327]%N ++ runes_of_ascii "`
+, },
+    }
+packet RiskControlResponse	{
+
+    string UniqueOrderId
+    `" ++ [21807; 19968; 35746; 21333; 21495]%N ++ runes_of_ascii "`  ,
+i32
+    Status`" ++ [29366; 24577]%N ++ runes_of_ascii "`
+
+,
+string
+Msg`" ++ [32467; 26524; 20449; 24687]%N ++ runes_of_ascii "`,  repeat 
+Detail
+,
+}
+packet Detail 
+{ string RuleName  `" ++ [35268; 21017; 21517; 31216]%N ++ runes_of_ascii "`,
+
+    u16 Code
+
+`" ++ [21407; 22240; 20195; 30721]%N ++ runes_of_ascii "`	,  }
+")).
+Eval vm_compute in ("<<<M1581>>>" ++ check (runes_of_ascii "  // `tick` ""quote"" 'q'
+packet	crc
+
+    {  @tag( 0  ) 	 //x
+
+chars,
+    i8i8 @lengthOf(
+
+    packetx
+	) ,repeat 
+f32a{match
+
+packetx
+as 
+a1
+
+{""x y""  :  
+  //
+	// `tick` ""quote"" 'q'
+  Packet,
+} 
+,
+
+},  @leftPad
+
+    ( 
+'\x00')
+    uint8  int  ,
+	match 
+float as
+
+a1
+{ 
+    // `tick` ""quote"" 'q'
+	[ 
+4294967296 ]	:// " ++ [27880; 37322]%N ++ runes_of_ascii "
+    Packet ,
+	} 	 //
+	,
+repeat  zchar[007  ] zchar
+`tab	here`,
+	repeat 
+
+    // " ++ [27880; 37322]%N ++ runes_of_ascii "
+  	// a // b
+	x
+,
+	}
+    packet
+
+    string_ 
+// c
+  { char[
+    0123456789
+    ] a1
+    ,
+	@calculatedFrom(
+
+    ""a\\""
+    ) 
+@tag( 42
+	)@leftPad(
+	'\x00'
+    ) options1
+@calculatedFrom(""" ++ [28040; 24687]%N ++ runes_of_ascii """
+)
+`it's`
+,
+
+    repeat  rootA// packet A { u8 x, }
+{ 
+
+//
+    match
+Logon as
+	Packet
+
+{[10 
+, 255 
+,
+
+0
+,	007 
+, 
+""CRC32""
+	,	""abc""
+
+    ]
+
+: len
+	,""" ++ [28040; 24687]%N ++ runes_of_ascii """ : 
+a1 , }	, match
+    leftPad
+
+    as
+	Header {
+
+    007  :
+As
+,255
+:
+repeatCount
+
+    ,	/// triple
+""""// packet A { u8 x, }
+  : 
+matchKey 	 //
+    	,  [ 255 , 
+3 
+,
+
+    ""abc""
+
+,
+""""	,
+
+""\n"" ,
+    1  ,"""" // " ++ [27880; 37322]%N ++ runes_of_ascii "
+	,
+42 //x
+
+	] :pack, } ,} 
+	// @lengthOf(
+  	// `tick` ""quote"" 'q'
+,
+    int 
+{
+
+    int64
+
+chars,
+}// @lengthOf(
+	, } ")).
+Eval vm_compute in ("<<<M1600>>>" ++ check (runes_of_ascii "
+// top
+    options // c0
+  {LittleEndian 
+
+    // c2
+=
+	true
+// c4
+	; StringPrefixLenType
+
+    =  // c7a
+  	// c7b
+  	u16	// c8
+;// c9a
+  // c9b
+
+	FixedStringPadChar =// c11a
+  // c11b
+
+' '  // c12
+	;	// c13
+	}
+packet  // c15
+      Logon
+
+    {// c17
+@leftPad  // c18a
+	// c18b
+  ('0' 
+        // c20
+	  )
+char[ // c22
+	10 ] 
+    // c24
+
+  tag7	// c25a
+	// c25b
+,
+    }
+// c27
+
+root  // c28a
+// c28b
+	packet	Ack
+    // c30
+	{ // c31
+int32 Px // c33
+    	,	// c34a
+// c34b
+		uint16  // c35
+  	count  // c36a
+  	// c36b
+  ,	// c37
+	string // c38
+
+Qty  // c39
+  , string
+        // c41
+    	OrderId 
+// c42
+  ,
+    string 
+Flags// c45a
+
+// c45b
+  ,  u8
+	x// c48a
+
+// c48b
+	,	// c49a
+    	// c49b
+  match  // c50
+	x// c51
+    	as
+Body 
+        // c53
+	{  // c54
+	[
+
+// c55
+  58	// c56
+
+  , // c57a
+// c57b
+	169
+
+    ]	// c59
+:  // c60a
+	  // c60b
+Logon 
+    // c61
+	,
+}	// c63
+		,  }  // c65a
+	// c65b
+")).
+Eval vm_compute in ("<<<M1386>>>" ++ check (runes_of_ascii "// top
+options
+    // c0
+{
+    // c1
+LittleEndian // c2a
+  // c2b
+=
+    // c3
+true // c4a
+  // c4b
+; } // c6a
+  // c6b
+packet // c7a
+  // c7b
+Logon // c8a
+  // c8b
+{ u8
+    // c10
+x // c11a
+  // c11b
+,
+    // c12
+}
+    // c13
+packet
+    // c14
+Logout
+    // c15
+{ // c16
+u16 reason // c18a
+  // c18b
+, } // c20
+root // c21
+packet Frame // c23
+{ // c24a
+  // c24b
+u64
+    // c25
+Kind , // c27
+u64 Kind2 // c29
+, match Kind // c32
+as // c33
+Body
+    // c34
+{
+    // c35
+1 : // c37a
+  // c37b
+Logon ,
+    // c39
+[ // c40a
+  // c40b
+2 , // c42a
+  // c42b
+3 // c43a
+  // c43b
+, // c44
+4 // c45a
+  // c45b
+] // c46a
+  // c46b
+:
+    // c47
+Logout
+    // c48
+, // c49
+100 : // c51
+Logon
+    // c52
+, // c53
+} // c54
+, match // c56a
+  // c56b
+Kind2 // c57
+as // c58
+Trailer
+    // c59
+{ // c60a
+  // c60b
+0 : // c62
+Logout
+    // c63
+, // c64
+} // c65
+, } ")).
+Eval vm_compute in ("<<<M1884>>>" ++ check (runes_of_ascii "
+packet pack 
+  // c
+
+  // packet A { u8 x, }
+	  {  u8	a1  
+  // trailing space 
+  	/// triple
+`say ""hi""` 	 // packet A { u8 x, }
+, @leftPad
+    (
+
+    '\x00'
+) uint8
+
+Logon
+`
+`// `tick` ""quote"" 'q'
+	, char[]
+lengthOf 	 // " ++ [27880; 37322]%N ++ runes_of_ascii "
+      `" ++ [233]%N ++ runes_of_ascii "`,
+	    //
+  //x
+
+  repeat 
+char[]
+
+    As 
+, 
+        //	t
+  @lengthOf(	string_
+    )
+    @calculatedFrom(""a\\""	) 
+repeat
+u8x
+    o, char
+
+    string_  @calculatedFrom( ""a\""b"") `tab	here`	, repeat 
+As
+    {  char[ 
+// packet A { u8 x, }
+  0	] i64_	//	t
+  @lengthOf(	T 
+)
+	`" ++ [233]%N ++ runes_of_ascii "` ,	char[
+4294967296
+] 
+T
+@calculatedFrom(
+
+""\" ++ [233]%N ++ runes_of_ascii """ ) 
+, trueish  , 
+repeat	int 
+{ 
+string
+
+Logon@calculatedFrom(	""1"") ,
+
+    metadata
+
+,
+    uint32 
+Z9_ , // " ++ [27880; 37322]%N ++ runes_of_ascii "
+    }
+
+    ,
+}	,
+
+    @tag( 00
+) //	t
+	i16
+
+    a1`a\` ,
+    }
+
+")).
+Eval vm_compute in ("<<<M1360>>>" ++ check (runes_of_ascii "options {
+    StringPrefixLenType = u8;
+    ArrayPrefixLenType = u32;
+    FixedStringPadFromLeft = true;
+    FixedStringPadChar = ' ';
+}
+packet Leg {
+}
+packet Heartbeat {
+    zchar[6] msgKind,
+    @rightPad('0') char[3] Qty,
+    zchar[9] Side2,
+    i8 Acct,
+}
+packet Logout {
+    int8 x,
+}
+packet Order {
+    char[] Acct,
+    zchar[8] count,
+    u32 OrderId,
+    uint8 lastPx,
+    u16 clOrdID,
+    zchar[7] Note,
+}
+root packet Reject {
+    @leftPad(' ') char[8] Side2,
+    i8 clOrdID,
+    repeat f32 x,
+    u32 lastPx,
+    match lastPx as Body {
+        [30, 147] : Heartbeat,
+        134 : Leg,
+        183 : Logout,
+        40 : Order,
+    },
+    u16 Ref @calculatedFrom(""CRC32""),
+}
+")).
+Eval vm_compute in ("<<<M1646>>>" ++ check (runes_of_ascii "root packet falsey {
+    @tag(255)
+    len @calculatedFrom(""`tick`""),
+    match MetaDataX as crc {
+        [7] : roots,
+    },
+    @tag(10)
+    @tag(10)
+    @tag(255)
+    repeat uint64 rootA,
+    tag `" ++ [28040; 24687; 31867; 22411]%N ++ runes_of_ascii "`,
+    float32 i64_,
+    int64 _x `doc`,
+    @leftPad(' ')
+    match i8i8 as pack {
+        // `tick` ""quote"" 'q'
+        7 : Logon,
+        ""x y"" : lengthOf,
+    },// trailing space 
+    match x_y_z as u {
+        // `tick` ""quote"" 'q'
+        // " ++ [27880; 37322]%N ++ runes_of_ascii "
+        [0123456789] : packetx,
+        007 : x_y_z,
+        10 : rootA,
+        7 : u,
+        0123456789 : falsey,
+    },// packet A { u8 x, }
+}")).
+Eval vm_compute in ("<<<M1785>>>" ++ check (runes_of_ascii "packet rootA {
+    options1 _x,
+    u64 Header,
+}
+
+packet lengthOf {
+    @rightPad(' ')
+    @lengthOf(u128)
+    @calculatedFrom(""a\""b"")
+    A {
+        string i64_ `it's`,
+        //	t
+        // trailing space 
+        uint8 body,
+        match pack as u {
+            // @lengthOf(
+            // trailing space 
+            00 : charz,
+            00 : int,
+            3 : falsey,
+            255 : body,
+            [0123456789] : x_y_z,
+            // a // b
+            //
+        },
+    },
+}
+
+MetaData chars {
+    u128 zchar,
+    char[42] metadata,
+}")).
+Eval vm_compute in ("<<<M1860>>>" ++ check (runes_of_ascii "packet  /// triple
+  matchKey {
+	float32  float
+
+    ,
+@calculatedFrom(
+
+""a\\""  // " ++ [27880; 37322]%N ++ runes_of_ascii "
+    )
+@rightPad
+
+(	'\x00'
+	)
+
+    i16 
+tag
+    @calculatedFrom(""abc"" )
+, repeat zchar[  255
+]
+    pack
+	,
+
+    @lengthOf(
+	Z9_)
+	tag
     ,
 
-    }
-root packet
+    }// trailing space 
+root
 
-options1
+    packet
+
+    rootA
+{ repeat
+
+    metadata 
 {
-@tag(65535/// triple
-)
+	Logon
 
-packetx  {u128 , 
-f32 	 /// triple
-  	a1 ,	}	, 
-}  
-      // trailing space 
- 
+    , }	,
+@tag(10
+
+)  @lengthOf( A	)
+	@tag(  007)	u32 options1,  match float
+as
+u
+
+{	0123456789
+:u8x
+	, 
+}
+
+    , } 	 // " ++ [27880; 37322]%N ++ runes_of_ascii "
+    root  packet
+lengthOf{ 
+}
+
 ")).
+Eval vm_compute in ("<<<M1297>>>" ++ check (runes_of_ascii "packet A { // c2a
+  // c2b
+u8
+    // c3
+a ,
+    // c5
+} // c6a
+  // c6b
+packet B // c8
+{ // c9
+u16
+    // c10
+b // c11
+, // c12
+} // c13a
+  // c13b
+root // c14a
+  // c14b
+packet // c15a
+  // c15b
+P
+    // c16
+{ u8 // c18a
+  // c18b
+K // c19
+, match // c21
+K // c22a
+  // c22b
+as // c23
+M // c24
+{ // c25a
+  // c25b
+1 : // c27a
+  // c27b
+A // c28a
+  // c28b
+,
+    // c29
+1
+    // c30
+: B
+    // c32
+,
+    // c33
+} // c34a
+  // c34b
+,
+    // c35
+} ")).
+Eval vm_compute in ("<<<M1948>>>" ++ check (runes_of_ascii "
+options
+
+    {falsey=
+	int64
+
+    ;u8x =
+uint32
+    uint8x
+	=  // " ++ [128512]%N ++ runes_of_ascii " emoji
+zchar[
+
+    1]  
+      // @lengthOf(
+
+	/// triple
+      ; leftPad
+=  ""a	b"" ;calculatedFrom
+    =
+	false
+;
+}	MetaData
+	Packet{ 
+zchar[
+	7
+
+    ]
+As ,
+    } 
+root packet pack	{
+
+@leftPad() @tag(// trailing space 
+  	7 )
+
+    zchar[
+
+3	]
+
+    u@lengthOf( 
+    // @lengthOf(
+	  // trailing space 
+  x
+
+)	, 
+}")).
+Eval vm_compute in ("<<<M1265>>>" ++ check (runes_of_ascii "// top
+packet // c0
+B // c1
+{ // c2
+u8 // c3
+a , // c5a
+  // c5b
+} // c6
+root // c7
+packet P // c9a
+  // c9b
+{ // c10a
+  // c10b
+u8 // c11
+K , // c13a
+  // c13b
+match K // c15a
+  // c15b
+as // c16a
+  // c16b
+Body { // c18
+1 :
+    // c20
+B , }
+    // c23
+, // c24a
+  // c24b
+u16 // c25a
+  // c25b
+L // c26
+@lengthOf( Body
+    // c28
+)
+    // c29
+,
+    // c30
+} ")).
+Eval vm_compute in ("<<<M1387>>>" ++ check (runes_of_ascii "options
+
+{ 
+LittleEndian
+	=
+true 
+;	}
+
+packet
+
+    Logon { u8
+	x
+,
+    }
+	packet
+Logout
+
+{ u16
+
+    reason
+	, }  root
+packet
+
+Frame
+{u64
+Kind , u64
+	Kind2
+
+,match
+Kind  as 
+Body 
+{
+1:	Logon,
+
+    [  2 ,3
+
+,
+    4 ] 
+:	Logout , 100
+: Logon
+    , 
+},
+match
+Kind2 as
+
+    Trailer{
+0
+:
+	Logout
+, } , } ")).
+Eval vm_compute in ("<<<M215>>>" ++ check (runes_of_ascii "root	packet
+    i8i8 { @tag( // c
+4294967296 )
+    // packet A { u8 x, }
+    Header  calculatedFrom `
+`
+, @tag(4294967296 )
+@rightPad ( ' '
+    )
+@lengthOf( float )
+    options1 zchar `" ++ [233]%N ++ runes_of_ascii "`
+//x
+/// triple
+,}	root packet
+    // " ++ [128512]%N ++ runes_of_ascii " emoji
+    x {repeat
+zchar[  10 ]	x`u8 x,`,
+    }")).
+Eval vm_compute in ("<<<M361>>>" ++ check (runes_of_ascii "MetaData BodyLength { uint16 leftPad `" ++ [233]%N ++ runes_of_ascii "` // a // b
+, uint8x asx,
+    len lengthOf `// not a comment` ,
+string uint8x `doc`
+, }options {i8i8 = 0
+lengthOf =
+    0123456789 ; } packet uint8x { @lengthOf(
+pack ) float64
+u8x@lengthOf(asx //x
+)
+, }
+")).
+Eval vm_compute in ("<<<M358>>>" ++ check (runes_of_ascii "
+packet matchKey	{ // @lengthOf(
+@lengthOf(
+a1 ) string_
+T`" ++ [28040; 24687; 31867; 22411]%N ++ runes_of_ascii "`, //
+} packet body {f32 _x  , packetx @lengthOf(
+options1 ) // packet A { u8 x, }
+`` , @leftPad ( ' ') i16 crc ,@calculatedFrom(
+""" ++ [128512]%N ++ runes_of_ascii """
+)	Pad
+, } //")).
 Eval vm_compute in ("<<<M1311>>>" ++ check (runes_of_ascii "options {
     FixedStringPadChar = '0';
 }
@@ -890,64 +1091,56 @@ root packet R {
     repeat zchar[2] zs,
 }
 ")).
-Eval vm_compute in ("<<<M1547>>>" ++ check (runes_of_ascii "
+Eval vm_compute in ("<<<M1583>>>" ++ check (runes_of_ascii "  packet
 
-  MetaData
-	leftPad	{	chars MetaDataX
+    A 
+{
+
+match
+    k as
+n {[ 
+""a""  , ""bb""
+	,
+    ""c c"" , ""d""
+    ,
+    ""e""
+
+, 
+""f"" , ""g"" ,
+
+    ""h""
+
+, 
+""i""
+
 ,
-
-    } 
-packet
-
-repeatCount
-
-    {
-
-    char[
-	255	] uint8x `" ++ [233]%N ++ runes_of_ascii "` ,
-        // c
-  }
-    MetaData pack{ As Foo
-	,	}
-")).
-Eval vm_compute in ("<<<M1834>>>" ++ check (runes_of_ascii "packet A {
-    Inner {
-        u8 x `a
-            b
-          c`,
-        Deep {
-            u8 y `a
-                b
-              c`,
-        },
+""j""  ,	""k""
+    ]
+    :	B  2 
+:C}	, } ")).
+Eval vm_compute in ("<<<M1449>>>" ++ check (runes_of_ascii "packet A {
+    match k as n {
+        [
+            1, 22, ""c c"", 4, 5,
+            ""f"", 7, 8, ""i"", 10,
+            11
+        ] : B,
+        2 : C,
     },
 }")).
-Eval vm_compute in ("<<<M1272>>>" ++ check (runes_of_ascii "
-options{
-LittleEndian=
-
-true; } packet
-	B	{
-u8 a
-
-    ,
-string  s, 
-}	root
-
-packet
-
-P
-
-{ u16
-    L
-    @lengthOf(
-
-    B
-)
-,
-B,
-    u8
-t ,  }")).
+Eval vm_compute in ("<<<M1700>>>" ++ check (runes_of_ascii "  // top
+packet	// c0
+	  body// c1
+  { 	 // c2
+	  i32 	 // c3
+  f32a// c4
+	  `{ , }`	// c5
+,// c6
+    }  // c7
+  options// c8
+{	// c9
+  	} // c10
+")).
 Eval vm_compute in ("<<<M541>>>" ++ check (runes_of_ascii "packet uint8x
 { match pack
     as msg_type	{
@@ -959,7 +1152,7 @@ a1
     { } options {packetx
     = '\x0" ++ [233]%N ++ runes_of_ascii "0'	; u128= ""a	b""  ; }
 ")).
-Eval vm_compute in ("<<<M492>>>" ++ check (runes_of_ascii "packet uint8x
+Eval vm_compute in ("<<<M497>>>" ++ check (runes_of_ascii "packet uint8x
 { match pack
     as msg_type	{
     0123456789 :	float
@@ -967,256 +1160,257 @@ Eval vm_compute in ("<<<M492>>>" ++ check (runes_of_ascii "packet uint8x
 ,
 } packet //	t
 a1
-    { } options {=
-    packetx '\x00'	; u128= ""a	b""  ; }
+    { } options {packetx
+    '\x00' =	; u128= ""a	b""  ; }
 ")).
-Eval vm_compute in ("<<<M1807>>>" ++ check (runes_of_ascii "packet A {
-    match k as n {
-        [
-            007, 66, 9, ""a"", ""bb"",
-            ""d"", ""e"", ""g"", ""h"", ""j""
-        ] : B,
-        2 : C,
-    },
-}")).
-Eval vm_compute in ("<<<M665>>>" ++ check (runes_of_ascii "// @lengthOf(
+Eval vm_compute in ("<<<M272>>>" ++ check (runes_of_ascii "packet _x	{ } packet BodyLength { int64
+Packet
+@lengthOf( float ),
+options1 /// triple
+{rootA x	, u8
+Packet @calculatedFrom( """ ++ [28040; 24687]%N ++ runes_of_ascii """) `it's`  ,
+} , }")).
+Eval vm_compute in ("<<<M670>>>" ++ check (runes_of_ascii "// @lengthOf(
 packet i8i8 { u128 o , }
 options { MetaDataX = true;
     BodyLength =""packet"" x_y_z= 007
 crc //x
-= ""abc"" ; ;
-    msg_type =
+= ""abc"" ;
+    msg_type = =
 i16 }")).
-Eval vm_compute in ("<<<M648>>>" ++ check (runes_of_ascii "// @lengthOf(
+Eval vm_compute in ("<<<M675>>>" ++ check (runes_of_ascii "// @lengthOf(
 packet i8i8 { u128 o , }
-options { = MetaDataX true;
+options { MetaDataX true =;
     BodyLength =""packet"" x_y_z= 007
 crc //x
 = ""abc"" ;
     msg_type =
 i16 }")).
-Eval vm_compute in ("<<<M669>>>" ++ check (runes_of_ascii "// @lengthOf(
-packet i8i8 {  o , }
-options { MetaDataX = true;
-    BodyLength =""packet"" x_y_z= 007
-crc //x
-= ""abc"" ;
-    msg_type =
-i16 }")).
-Eval vm_compute in ("<<<M1716>>>" ++ check (runes_of_ascii "packet A {
-    match k as n {
-        [
-            ""a"", ""bb"", ""c c"", ""d"", ""e"",
-            ""f""
-        ] : B,
-        2 : C,
-    },
-}")).
-Eval vm_compute in ("<<<M223>>>" ++ check (runes_of_ascii "packet  u { repeat
-    // " ++ [128512]%N ++ runes_of_ascii " emoji
-    A , @lengthOf( lengthOf
-)
-    repeat
-    i64
-i64_
-, //
-zchar[
-3// a // b
-] body , }
-")).
-Eval vm_compute in ("<<<M1148>>>" ++ check (runes_of_ascii "MetaData leftPad {
-// c
-chars MetaDataX , } packet repeatCount { char[ 255 ] uint8x `" ++ [233]%N ++ runes_of_ascii "` , } MetaData pack { As Foo , }")).
-Eval vm_compute in ("<<<M1180>>>" ++ check (runes_of_ascii "MetaData leftPad { chars MetaDataX , } packet repeatCount { char[ 255 ] uint8x `" ++ [233]%N ++ runes_of_ascii "` , } MetaData pack
-// c
-{ As Foo , }")).
-Eval vm_compute in ("<<<M1395>>>" ++ check (runes_of_ascii "
-packet A
-{
-	match
-    k
-    as
-n 
-{ [
-	1, 
-""bb""	, 
-007 ,""d"" 
-,	5  ,
-	""f""
-, 7, 
-""h""
+Eval vm_compute in ("<<<M98>>>" ++ check (runes_of_ascii "
+packet stringy {
+}
+MetaData u8x	{ zchar[ 65535
+    // a // b
+    ] Pad ,stringy string_
+`u8 x,` ,	u8 lengthOf`
+` , char[ 255
+] pack , } 	 ")).
+Eval vm_compute in ("<<<M1717>>>" ++ check (runes_of_ascii "packet
 
-]
-    :
-B
-	,2	: C
-},
-	}
-")).
-Eval vm_compute in ("<<<M908>>>" ++ check (runes_of_ascii "packet A {
-  match k as n {
-    [1, ""bb"", 007, ""d"", 5, ""f"", 7, ""h"", 9, ""j"", 11, ""l""] : B,
-    2 : C
-  },
-}")).
-Eval vm_compute in ("<<<M888>>>" ++ check (runes_of_ascii "packet A {
-  match k as n {
-    [""a"", ""bb"", 007, ""d"", ""e"", 66, ""g"", ""h"", 9, ""j""] : B,
-    2 : C
-  },
-}")).
-Eval vm_compute in ("<<<M479>>>" ++ check (runes_of_ascii "packet uint8x
-{ match pack
-    as msg_type	{
-    0123456789 :	float
-}
+    A  { match
+    k
+as
+    n 
+{
+
+    [
+
+    ""a"", ""bb""  ,
+007
 ,
-} packet //	t
-a1
-    {")).
-Eval vm_compute in ("<<<M558>>>" ++ check (runes_of_ascii "
-packet
-    asx asx {match u128 as lengthOf
-{
-//	t
-// `tick` ""quote"" 'q'
-255 : x ,
-    } ,	}")).
-Eval vm_compute in ("<<<M623>>>" ++ check (runes_of_ascii "
-packet
-    asx {match u128 as lengthOf
-{
-//	t
-// `tick` ""quote"" 'q'
-255 : x ,
-    } ,	} }")).
-Eval vm_compute in ("<<<M604>>>" ++ check (runes_of_ascii "
-packet
-    asx {match u128 as lengthOf
-{
-//	t
-// `tick` ""quote"" 'q'
-255 : , x
-    } ,	}")).
-Eval vm_compute in ("<<<M936>>>" ++ check (runes_of_ascii "packet A {
-    B b `a
-    b
-  c`,
-    B `a
-    b
-  c`,
-    repeat B bs `a
-    b
-  c`,
-}")).
-Eval vm_compute in ("<<<M1531>>>" ++ check (runes_of_ascii "
-MetaData
-x 
-{ x
-    Packet
+
+    ""d""
+,""e"", 66 , ""g""
+
+,
+	""h""]
+	: 
+B
+2 : C} ,
+	} ")).
+Eval vm_compute in ("<<<M1684>>>" ++ check (runes_of_ascii "
+
+  packet 
+A
+
+    { match	k 
+as
+    n {  [
+""a""
+
+    , 
+22	,
+
+""c c"" , 4 ,""e""
+    ,
+66
+,
+""g"" ,
+
+8 
+]
+:	B
+2
+
+: 
+C} , }
+
+")).
+Eval vm_compute in ("<<<M1142>>>" ++ check (runes_of_ascii "
+// c
+MetaData leftPad { chars MetaDataX , } packet repeatCount { char[ 255 ] uint8x `" ++ [233]%N ++ runes_of_ascii "` , } MetaData pack { As Foo , }")).
+Eval vm_compute in ("<<<M1168>>>" ++ check (runes_of_ascii "MetaData leftPad { chars MetaDataX , } packet repeatCount { char[ 255 ]
+// c
+uint8x `" ++ [233]%N ++ runes_of_ascii "` , } MetaData pack { As Foo , }")).
+Eval vm_compute in ("<<<M1731>>>" ++ check (runes_of_ascii "
+packet A	{  match k
+	as  n  {[	1
 
     ,
+22 ,
+""c c"" 
+,4	, 5,
 
-    i32
-lengthOf,// `tick` ""quote"" 'q'
-}
-")).
-Eval vm_compute in ("<<<M1094>>>" ++ check (runes_of_ascii "packet A { u16 // a
- len // b
- @lengthOf( // c
- body // d
- ) // e
- `d` // f
- , }")).
-Eval vm_compute in ("<<<M1282>>>" ++ check (runes_of_ascii "root 
+    ""f""
+
+, 
+7
+, 8
+,
+
+""i""
+]
+:  B  , 2  :C 
+} 
+, }")).
+Eval vm_compute in ("<<<M910>>>" ++ check (runes_of_ascii "packet A {
+  match k as n {
+    [""a"", 22, ""c c"", 4, ""e"", 66, ""g"", 8, ""i"", 10, ""k"", 12] : B,
+    2 : C
+  },
+}")).
+Eval vm_compute in ("<<<M912>>>" ++ check (runes_of_ascii "packet A {
+  match k as n {
+    [1, 22, ""c c"", 4, 5, ""f"", 7, 8, ""i"", 10, 11, ""l""] : B,
+    2 : C
+  },
+}")).
+Eval vm_compute in ("<<<M885>>>" ++ check (runes_of_ascii "packet A {
+  match k as n {
+    [""a"", 22, ""c c"", 4, ""e"", 66, ""g"", 8, ""i"", 10] : B
+    2 : C
+  },
+}")).
+Eval vm_compute in ("<<<M600>>>" ++ check (runes_of_ascii "
 packet
-
-    P  { u16	a ,
-
-u32
-
-Sum	@calculatedFrom( ""CRC32""
-	) ,
-
-} ")).
-Eval vm_compute in ("<<<M91>>>" ++ check (runes_of_ascii "packet
-roots{ }	MetaData
-    metadata{
-asx matchKey ,
-uint64
-rootA , }")).
+    asx {match u128 as lengthOf
+{
+//	t
+// `tick` ""quote"" 'q'
+255 packet x ,
+    } ,	}")).
+Eval vm_compute in ("<<<M585>>>" ++ check (runes_of_ascii "
+packet
+    asx {match u128 as @lengthOf(
+{
+//	t
+// `tick` ""quote"" 'q'
+255 : x ,
+    } ,	}")).
+Eval vm_compute in ("<<<M555>>>" ++ check (runes_of_ascii "
+asx
+    packet {match u128 as lengthOf
+{
+//	t
+// `tick` ""quote"" 'q'
+255 : x ,
+    } ,	}")).
+Eval vm_compute in ("<<<M577>>>" ++ check (runes_of_ascii "
+packet
+    asx {match u128  lengthOf
+{
+//	t
+// `tick` ""quote"" 'q'
+255 : x ,
+    } ,	}")).
+Eval vm_compute in ("<<<M836>>>" ++ check (runes_of_ascii "packet A {
+  match k as n {
+    [""a"", ""bb"", 007, ""d"", ""e"", 66] : B,
+    2 : C
+  },
+}")).
+Eval vm_compute in ("<<<M1527>>>" ++ check (runes_of_ascii "MetaData leftPad {
+    /// triple
+    char[] body,
+    As options1,
+    o i64_,
+}")).
+Eval vm_compute in ("<<<M826>>>" ++ check (runes_of_ascii "packet A {
+  match k as n {
+    [1, 22, 007, 4, 5, 66] : B,
+    2 : C
+  },
+}")).
+Eval vm_compute in ("<<<M960>>>" ++ check (runes_of_ascii "packet A {
+    B b `tab
+	x`,
+    B `tab
+	x`,
+    repeat B bs `tab
+	x`,
+}")).
 Eval vm_compute in ("<<<M795>>>" ++ check (runes_of_ascii "packet A {
   match k as n {
     [1, 22, ""c c""] : B,
     2 : C
   },
 }")).
-Eval vm_compute in ("<<<M1592>>>" ++ check (runes_of_ascii "root packet
-x{
-
-    roots
-@calculatedFrom(
-
-""a\""b""
-    ),
-
-}
-")).
-Eval vm_compute in ("<<<M1222>>>" ++ check (runes_of_ascii "// top
-packet
-    // c0
-x
-    // c1
-{
-    // c2
-}
-    // c3
-")).
-Eval vm_compute in ("<<<M1527>>>" ++ check (runes_of_ascii "packet body {
-    i32 f32a `{ , }`,
-}
-
-options {
-}// c")).
-Eval vm_compute in ("<<<M1214>>>" ++ check (runes_of_ascii "packet body { i32 f32a `{ , }` , }
-// c
+Eval vm_compute in ("<<<M782>>>" ++ check (runes_of_ascii "packet A {
+  match k as n {
+    [1, ""bb""] : B,
+    2 : C
+  },
+}")).
+Eval vm_compute in ("<<<M1503>>>" ++ check (runes_of_ascii "root 
+packet P
+	{u8  s_u8 ,repeat
+u8
+	r_u8,  u16 b_len  ,	}")).
+Eval vm_compute in ("<<<M1070>>>" ++ check (runes_of_ascii "packet A { match k as n { 1 : B // a // b 2 : C }, }")).
+Eval vm_compute in ("<<<M1213>>>" ++ check (runes_of_ascii "packet body { i32 f32a `{ , }` , } // c
 options { }")).
-Eval vm_compute in ("<<<M7>>>" ++ check (runes_of_ascii "options {  metadata = ""a\\""// @lengthOf(
-;}
-")).
-Eval vm_compute in ("<<<M1430>>>" ++ check (runes_of_ascii "packet
-    A 
-{u8 x
-    `d" ++ [133]%N ++ runes_of_ascii "`,  // c" ++ [133]%N ++ runes_of_ascii "
-  }
-")).
-Eval vm_compute in ("<<<M1629>>>" ++ check (runes_of_ascii "root packet A {
-    u8 x `x
-    `,
+Eval vm_compute in ("<<<M927>>>" ++ check (runes_of_ascii "MetaData M {
+    u8 x `a
+b`,
+    T t `a
+b`,
 }")).
-Eval vm_compute in ("<<<M1712>>>" ++ check (runes_of_ascii "packet A {
-    u8 x `d" ++ [8203]%N ++ runes_of_ascii "`,// c" ++ [8203]%N ++ runes_of_ascii "
+Eval vm_compute in ("<<<M212>>>" ++ check (runes_of_ascii "packet
+    MetaDataX {i16 u128`" ++ [233]%N ++ runes_of_ascii "` , //x
 }")).
-Eval vm_compute in ("<<<M175>>>" ++ check (runes_of_ascii "
-packet calculatedFrom { } 	 ")).
-Eval vm_compute in ("<<<M1881>>>" ++ check (runes_of_ascii "packet
+Eval vm_compute in ("<<<M1096>>>" ++ check (runes_of_ascii "packet A { u8 x,// a
 
-A{  }
-	    // c" ++ [65279]%N)).
-Eval vm_compute in ("<<<M153>>>" ++ check (runes_of_ascii "// trailing space 
 
+// b
+
+ u8 y, }")).
+Eval vm_compute in ("<<<M85>>>" ++ check (runes_of_ascii "options// c
+{MetaDataX =int16 }
 ")).
-Eval vm_compute in ("<<<M1062>>>" ++ check (runes_of_ascii "// c x
+Eval vm_compute in ("<<<M993>>>" ++ check (runes_of_ascii "packet A {
+ u8 x `d" ++ [133]%N ++ runes_of_ascii "`, // c" ++ [133]%N ++ runes_of_ascii "
+}")).
+Eval vm_compute in ("<<<M1637>>>" ++ check (runes_of_ascii "
+packet x
+
+    {
+} // c
+")).
+Eval vm_compute in ("<<<M286>>>" ++ check (runes_of_ascii " // `tick` ""quote"" 'q'")).
+Eval vm_compute in ("<<<M20>>>" ++ check (runes_of_ascii "packet MetaDataX { }")).
+Eval vm_compute in ("<<<M976>>>" ++ check (runes_of_ascii "packet A {
+}
+// c ")).
+Eval vm_compute in ("<<<M1057>>>" ++ check (runes_of_ascii "// c" ++ [6158]%N ++ runes_of_ascii "
 packet A {
 }")).
-Eval vm_compute in ("<<<M1017>>>" ++ check (runes_of_ascii "// c" ++ [8233]%N ++ runes_of_ascii "
-packet A {
-}")).
-Eval vm_compute in ("<<<M989>>>" ++ check (runes_of_ascii "packet A {
-}// c" ++ [133]%N)).
-Eval vm_compute in ("<<<M761>>>" ++ check (runes_of_ascii "{];z" ++ [65533]%N ++ runes_of_ascii """t" ++ [65533; 65533; 65533]%N ++ runes_of_ascii "XKU" ++ [65533; 2]%N)).
-Eval vm_compute in ("<<<M1394>>>" ++ check (runes_of_ascii "
-// c" ++ [8232]%N)).
-Eval vm_compute in ("<<<M1589>>>" ++ check (runes_of_ascii "
+Eval vm_compute in ("<<<M1227>>>" ++ check (runes_of_ascii "packet
+// c
+x { }")).
+Eval vm_compute in ("<<<M297>>>" ++ check (runes_of_ascii "// " ++ [128512]%N ++ runes_of_ascii " emoji
 
-  ")).
+
+")).
+Eval vm_compute in ("<<<M985>>>" ++ check (runes_of_ascii "// c" ++ [160]%N)).
+Eval vm_compute in ("<<<M19>>>" ++ check (runes_of_ascii "
+")).
